@@ -248,7 +248,7 @@ def run(ctx):
             where(sb, sb.node), "the drop-on-unknown-id policy of the bootstrap protocol would fail an unrelated request / connections leak")
 
     # ---- R8 bootstrap pending table: fire after removal
-    r = ctx.rule("R8", "bootstrap Deferreds are fired only after removal from the pending table; closed protocol refuses requests", 3, "C")
+    r = ctx.rule("R8", "bootstrap Deferreds are fired only after removal from the pending table; closed protocol refuses requests", 4, "C")
     cl = ctx.func("_protocol:KafkaBootstrapProtocol.connectionLost")
     ccl = ctx.cfg(cl)
     swap = [n for n in ccl.nodes if node_assign_value(n, "_pending") is not None]
@@ -257,6 +257,24 @@ def run(ctx):
     ok = bool(swap) and bool(ebs) and ccl.dominates([swap[0].id], ebs[0].id) and bool(loopv) and "self." not in norm(loopv[0].stmt.iter)
     r.check(ok, "%s#swap-then-fail-all" % cl.qname, "connection loss does not detach the pending table before failing its Deferreds",
             where(cl, cl.node), "re-entrant request() during errback is failed twice or lost")
+    # who may take an entry out of the pending table: the frame that answers it (stringReceived) and the loss of the
+    # connection (which detaches the whole table).  An entry whose caller gave up (cancel, timeout) stays, so that its late
+    # reply is absorbed instead of being an "unknown id" - which drops the connection and fails every other request on it
+    bp = prog.cls("_protocol:KafkaBootstrapProtocol")
+    removers = set()
+    for meth in [m for m in bp.node.body if isinstance(m, (ast.FunctionDef, ast.AsyncFunctionDef))]:
+        for x in ast.walk(meth):
+            hit = False
+            if isinstance(x, ast.Call) and isinstance(x.func, ast.Attribute) and x.func.attr in ("pop", "popitem", "clear") and self_attr(x.func.value) == "_pending":
+                hit = True
+            if isinstance(x, ast.Delete) and any(isinstance(t, ast.Subscript) and self_attr(t.value) == "_pending" for t in x.targets):
+                hit = True
+            if hit:
+                removers.add(meth.name)
+    r.check(removers <= {sr.name, cl.name} and sr.name in removers, "_protocol:KafkaBootstrapProtocol#pending-removers",
+            "entries leave the bootstrap pending table in %s; only the answering frame and the loss of the connection may remove one" % sorted(removers),
+            where(sr, sr.node), "a request that was cancelled / timed out is forgotten; its late reply is then an unknown id: the connection "
+            "is dropped and the other request outstanding on it fails instead of receiving its response", facts=sorted(removers))
     csr = ctx.cfg(sr)
     fire = [n for n in csr.nodes if any(call_name(c) == "callback" for c in n.calls())]
     popn = [n for n in csr.nodes if any(call_name(c) == "pop" and call_recv(c) == "self._pending" for c in n.calls())]
